@@ -23,7 +23,12 @@ def gen_expr(rng, depth, names):
         return ("bin", rng.choice(["+", "-", "*"]), gen_expr(rng, depth - 1, names), gen_expr(rng, depth - 1, names))
     if k < 0.7:
         return ("neg", gen_expr(rng, depth - 1, names))
-    cond = ("bin", rng.choice(["<", "<=", ">", ">=", "==", "!="]), gen_expr(rng, depth - 1, names), gen_expr(rng, depth - 1, names))
+    x, y = gen_expr(rng, depth - 1, names), gen_expr(rng, depth - 1, names)
+    if rng.random() < 0.3:
+        # both sides equal in value without being the same object: the boundary case of every comparison
+        op = rng.choice(["+", "*"])
+        x, y = ("bin", op, x, y), ("bin", op, y, x)
+    cond = ("bin", rng.choice(["<", "<=", ">", ">=", "==", "!="]), x, y)
     return ("ife", cond, gen_expr(rng, depth - 1, names), gen_expr(rng, depth - 1, names))
 
 
@@ -112,7 +117,14 @@ def run(res, tier):
         names = ["a", "b", "c", "d"][: rng.randint(1, 4)]
         modes = {nm: rng.choice(["pub", "sec", "sec", "const"]) for nm in names}
         vals = {nm: rng.choice([0, 0, 1, -1, 7]) if rng.random() < 0.5 else R.big_int(rng) for nm in names}
+        if len(names) > 1 and rng.random() < 0.3:
+            # two inputs with the same value (parsed separately, as run-time values are: equal, not identical)
+            vals[names[1]] = int(str(vals[names[0]]))
         e = gen_expr(rng, rng.randint(1, depth_max), names)
+        if i % 5 == 0:
+            # a comparison at the root, so that its value is what is observed
+            e = ("bin", rng.choice(["<", "<=", ">", ">=", "==", "!="]), e, gen_expr(rng, rng.randint(0, 2), names)) if rng.random() < 0.5 else \
+                ("ife", ("bin", rng.choice(["==", "!=", "<=", ">="]), ("var", names[0]), ("var", names[-1])), ("lit", 1), ("lit", 0))
         real, absr = run_one(e, modes, vals)
         evals += 1
         if real[0] != "ok":
